@@ -234,7 +234,7 @@ func TestC11N_Exchange(t *testing.T) {
 }
 
 func genC11Doc(t *rapid.T) (historyCase, string) {
-	mix := opMix{sets: true, delObj: true, delArr: true, setNullContainer: true}
+	mix := opMix{sets: true, delObj: true, delArr: true, setNullContainer: true, nullRoot: true}
 	kind := rapid.IntRange(0, 9).Draw(t, "c11doc")
 	if kind >= 3 {
 		return genHistory(t, mix, 6, editProfiles), "edited-doc"
